@@ -2,9 +2,10 @@
    decodePackets/decodePacket).  Definitions only.
 
    The two id bytes of every packet (and, in the server role, five bytes of the answer record)
-   are random draws (util.FastRand): the encoder takes `rnd`, a function from the ABSOLUTE wire
-   offset to the byte drawn there; the theorems quantify over every rnd, the correspondence run
-   reads it off the observed wire.  `server` is the build-time constant dnsServer.
+   are random draws (util.FastRand): the encoder takes `rnd k f`, the f-th byte drawn while packet
+   number k is built (f = 0, 1: the id; f = 2..6: the answer record); the theorems quantify over
+   every rnd, the correspondence run reads the draws off the observed wire.  `server` is the
+   build-time constant dnsServer.
 
    The decoder walks the buffer with an index s exactly as decodePacket does; it is written over
    the suffix rem = b[s:] together with s and len(b), so that b[s] is the head of rem (Panic when
@@ -52,34 +53,34 @@ Definition dns_header (server : bool) (id0 id1 t : Z) : list Z :=
 
 Definition dns_question_end : list Z := [0; 0; 1; 0; 1].
 
-Definition dns_answer (r : Z -> Z) (o : Z) : list Z :=
-  [192; 12; 0; 1; 0; 1; 0; 0; 3; r (o + 9); 0; 4; r (o + 12); r (o + 13); r (o + 14); r (o + 15)].
+Definition dns_answer (r : Z -> Z) : list Z :=
+  [192; 12; 0; 1; 0; 1; 0; 0; 3; r 2; 0; 4; r 3; r 4; r 5; r 6].
 
 Definition dns_seg (d : list Z) : list Z :=
   [192; 12; 0; 10; 0; 1; 0; 0; 0; 0; u8 (len d / 256); u8 (len d)] ++ d.
 
-(* encodePacket for the (non-empty) data c = b[:min(len b, 2048)], written at wire offset o *)
-Definition dns_packet (server : bool) (labels : list Z) (rnd : Z -> Z) (o : Z) (c : list Z) : list Z :=
+(* encodePacket for the (non-empty) data c = b[:min(len b, 2048)]; r = the draws of this packet *)
+Definition dns_packet (server : bool) (labels : list Z) (r : Z -> Z) (c : list Z) : list Z :=
   let segs := chunks256 (length c) c in
   let t := len segs in
-  dns_header server (rnd o) (rnd (o + 1)) t ++ labels ++ dns_question_end
-  ++ (if server then dns_answer rnd (o + 12 + len labels + 5) else [])
+  dns_header server (r 0) (r 1) t ++ labels ++ dns_question_end
+  ++ (if server then dns_answer r else [])
   ++ flat_map dns_seg segs.
 
-Fixpoint dns_encode_f (fuel : nat) (server : bool) (labels : list Z) (rnd : Z -> Z) (o : Z) (b : list Z) : list Z :=
+Fixpoint dns_encode_f (fuel : nat) (server : bool) (labels : list Z) (rnd : Z -> Z -> Z) (k : Z) (b : list Z) : list Z :=
   match fuel with
   | O => []
   | S f =>
     if is_nil b then []
-    else let pkt := dns_packet server labels rnd o (take 2048 b) in
-         pkt ++ dns_encode_f f server labels rnd (o + len pkt) (drop 2048 b)
+    else dns_packet server labels (rnd k) (take 2048 b)
+         ++ dns_encode_f f server labels rnd (k + 1) (drop 2048 b)
   end.
 
 (* encodePackets with the labels already computed *)
-Definition dns_encode_with (server : bool) (labels : list Z) (rnd : Z -> Z) (b : list Z) : list Z :=
+Definition dns_encode_with (server : bool) (labels : list Z) (rnd : Z -> Z -> Z) (b : list Z) : list Z :=
   dns_encode_f (length b) server labels rnd 0 b.
 (* DNSTransform.Write with the picked domain *)
-Definition dns_encode (server : bool) (domain : list Z) (rnd : Z -> Z) (b : list Z) : list Z :=
+Definition dns_encode (server : bool) (domain : list Z) (rnd : Z -> Z -> Z) (b : list Z) : list Z :=
   dns_encode_with server (dns_labels domain) rnd b.
 
 (* ---- decodePacket ----------------------------------------------------------------------- *)
